@@ -38,6 +38,12 @@ DESIGN_REF = "DESIGN.md section 4, C09"
 KINDS = ["pair", "eam", "fs", "adp"]
 
 
+NEAR_EQUAL_PARAMS = [({"k": "form", "name": "buck", "p": [1284.381, 0.3013, 12.5]}, {"k": "form", "name": "buck", "p": [1284.384, 0.3013, 12.5]}),
+            ({"k": "form", "name": "polynomial", "p": [0.0, 2500000]}, {"k": "form", "name": "polynomial", "p": [0.0, 2500001]}),
+            ({"k": "form", "name": "bornmayer", "p": [915.7231, 0.2999995]}, {"k": "form", "name": "bornmayer", "p": [915.7234, 0.2999996]}),
+            ({"k": "form", "name": "morse", "p": [1.2000001, 2.0, 0.35]}, {"k": "form", "name": "morse", "p": [1.2000004, 2.0, 0.35]})]
+
+
 def gen_cases(rng, tier):
   n = 90 if tier == "quick" else 1200
   cases = []
@@ -117,12 +123,28 @@ def gen_cases(rng, tier):
                                                                   ["call", "hc", [["var", "r"], ["var", "x"], ["num", float(b_)]]]]}]
       u1 = {"k": rng.choice(["sum", "product"]), "a": [{"k": "custom", "name": "hc", "args": [x_, a_]}, {"k": "custom", "name": "hc", "args": [x_, b_]}]}
       u2 = {"k": "custom", "name": "hc2", "args": [x_]}
+      if i % 14 == 5:
+        # the same with a BUILT-IN form (one shared object per form name serves every 'as.NAME ...' instance and every
+        # as.NAME(r, ...) call inside formulas)
+        u1 = {"k": u1["k"], "a": [{"k": "form", "name": "polynomial", "p": [x_, a_]}, {"k": "form", "name": "polynomial", "p": [x_, b_]}]}
+        m["forms"][-1] = {"name": "hc2", "params": ["r", "x"], "breaks": [], "expr": ["-", ["*", ["num", 3.0], ["call", "as.polynomial", [["var", "r"], ["var", "x"], ["num", float(a_)]]]],
+                                                                                       ["call", "as.polynomial", [["var", "r"], ["var", "x"], ["num", float(b_)]]]]}
       for key in ("pair", "density", "embed"):
         ents = m.get(key) or []
         if len(ents) >= 2:
           ents[0][-1], ents[1][-1] = u1, u2
         elif ents:
           ents[0][-1] = u1
+    if i % 7 == 4:
+      # two entries that use ONE built-in form with parameter lists that agree to six significant figures ('%g' prints them
+      # alike): each entry means its own parameters
+      pa_, pb_ = rng.choice(NEAR_EQUAL_PARAMS)
+      if rng.random() < 0.5:
+        pa_, pb_ = pb_, pa_
+      for key in ("pair", "density", "embed"):
+        ents = m.get(key) or []
+        if len(ents) >= 2:
+          ents[0][-1], ents[1][-1] = dict(pa_), dict(pb_)
     if i % 7 == 1:
       # a formula that rescales one of its own parameters before using it ('rho := rho*0.529177; A*exp(-r/rho)': exprtk
       # allows the assignment): every evaluation starts from the parameter as given in the file, whatever an earlier
